@@ -31,7 +31,7 @@ struct Node {
 // outcome of a model operation: which errors the specification allows for it (empty = must succeed)
 // `refusal`: codes an implementation may answer with although the call is legal, as a documented or conservative
 // refusal - the tree must then be unchanged and the model skips the step (kept to narrowly named shapes)
-struct Verdict { std::set<int> errs; std::set<int> refusal; bool ok() const { return errs.empty(); } void add(int e) { errs.insert(e); } };
+struct Verdict { std::set<int> errs; std::set<int> refusal; bool open = false; bool ok() const { return errs.empty(); } void add(int e) { errs.insert(e); } };      // open: the case is implementation defined, callers do not execute it
 
 inline bool isNameStart(char16_t c) { return (c >= u'a' && c <= u'z') || (c >= u'A' && c <= u'Z') || c == u'_' || c == u':' || c >= 0xC0; }
 inline bool isNameChar(char16_t c) { return isNameStart(c) || (c >= u'0' && c <= u'9') || c == u'-' || c == u'.' || c == 0xB7; }
@@ -90,6 +90,8 @@ public:
         std::vector<Node*> incoming; if (nw->type == FRAGMENT) incoming = nw->kids; else incoming.push_back(nw);
         int elems = parent->type == DOCUMENT ? countKids(parent, ELEMENT, replacing) : 0, dts = parent->type == DOCUMENT ? countKids(parent, DOCUMENT_TYPE, replacing) : 0;
         for (auto c : incoming) {
+            // xerces-c deliberately accepts white-space-only Text nodes as children of a Document (to keep the white space of the prolog): not judged
+            if (parent->type == DOCUMENT && c->type == TEXT && !c->value.empty() && c->value.find_first_not_of(u" \t\r\n") == std::u16string::npos) v.open = true;
             if (!kidOK(parent, c)) v.add(HIERARCHY_REQUEST_ERR);
             if (parent->type == DOCUMENT && c->type == ELEMENT && !(c->parent == parent && c != replacing)) { if (++elems > 1) v.add(HIERARCHY_REQUEST_ERR); }
             if (parent->type == DOCUMENT && c->type == DOCUMENT_TYPE && !(c->parent == parent && c != replacing)) { if (++dts > 1) v.add(HIERARCHY_REQUEST_ERR); }
